@@ -90,6 +90,30 @@ def s_harness(rep, cfg, modpath, name, fn, arg_specs, goal_fn, T, out_kind="scal
         if not d: break
         d[-1] = 1; decisions = d
 
+class ReduceContract:
+    """interceptor for Scalar::reduce inside its callers (is_canonical / from_canonical_bytes): out = x - k*l with 0 <= out < l, 0 <= k <= 15, for every
+    256-bit x - established on the real code of reduce by the harness 'Scalar::from_bytes_mod_order' (= Scalar{bytes}.reduce()) of this check, whatever
+    way reduce is written (mul_internal + montgomery_reduce, or montgomery_mul(x, R))"""
+    def __init__(self, run): self.run, self.calls = run, []
+    def __call__(self, it, args, name):
+        ctx = it.ctx; k = len(self.calls)
+        xb = [it.P(it.load(Ptr(args[1].r, args[1].o + i), 1)) for i in range(32)]
+        xv = BYTES32.value(xb)
+        if self.run.concrete is not None:
+            o = xv.cval() % L
+            for i in range(32): it.store(Ptr(args[0].r, args[0].o + i), Poly.const((o >> (8 * i)) & 255), 1)
+            self.calls.append(1); return None
+        sho = [None] * 32; shk = None
+        if ctx.shadow is not None:
+            x_ = ctx.resolve(xv).eval(ctx.shadow); o_ = x_ % L; shk = x_ // L
+            sho = [(o_ >> (8 * i)) & 255 for i in range(32)]
+        o = [ctx.input("red%d_o%d" % (k, i), 0, 255, shadow=sho[i]) for i in range(32)]
+        q = ctx.input("red%d_k" % k, 0, 15, shadow=shk)
+        ov = BYTES32.value(o)
+        ctx.side.append(("cond", Cond("and", eq(ov, xv - q.scale(L)), lt(ov, L))))
+        for i in range(32): it.store(Ptr(args[0].r, args[0].o + i), o[i], 1)
+        self.calls.append(1); return None
+
 def s_harness1(rep, cfg, modpath, name, fn, arg_specs, goal_fn, T, out_kind, bounds, reduce_lemma, decisions):
     """arg_specs: list of ('scalar'|'bytes32'|'bytes64'|('int', bits), assume_canonical)"""
     S = SC[cfg]
@@ -112,6 +136,7 @@ def s_harness1(rep, cfg, modpath, name, fn, arg_specs, goal_fn, T, out_kind, bou
         run.it.intercept = [(S["sub"], sc), (base + r'(14montgomery_mul|::montgomery_mul)$', mc), (base + r'(3mul|::mul)$', ml), (base + r'(6square|::square)$', sq),
                             (r'^<\[T\] as subtle::ConstantTimeEq>::ct_eq$', ic_slice_ct_eq),
                             (r'^<[ui](\d+|size) as subtle::ConstantTimeEq>::ct_eq$', ic_int_ct_eq)]
+        if reduce_lemma == "contract": run.it.intercept.insert(0, (r'^curve25519_dalek::scalar::Scalar::reduce$', ReduceContract(run)))
         args = []; vals = []
         out = run.out("out", BYTES32) if out_kind in ("scalar", "flag+scalar") else None
         for k, (kind, canon) in enumerate(arg_specs):
@@ -137,7 +162,7 @@ def s_harness1(rep, cfg, modpath, name, fn, arg_specs, goal_fn, T, out_kind, bou
         o = run.read(out, BYTES32) if out is not None else []
         ov = BYTES32.value(o) if o else None
         goals = list(goal_fn(ov, vals, flag))
-        if reduce_lemma and concrete is None and sc.calls:
+        if reduce_lemma is True and concrete is None and sc.calls:
             # Scalar::reduce(x): the value r returned by the final conditional subtraction satisfies r == x (mod l);
             # once proven, r = x - l*k for an integer k (0 <= k <= 16) is added as a fact for the remaining goals
             c0 = sc.calls[-1]
@@ -183,7 +208,7 @@ def harnesses(rep, cfg, modpath, tier):
     H("Scalar::from_bytes_mod_order_wide", "vp_sc_from_bytes_mod_order_wide", [("bytes64", False)], lambda o, v, f: [("out == bytes (mod l)", modne(o - v[0], L)), canon(o)], T, bounds="all 2^512 byte strings")
     H("Scalar::from_canonical_bytes", "vp_sc_from_canonical_bytes", [("bytes32", False)],
       lambda o, v, f: [("Some <=> bytes < l", c_or(c_and(eq(f, 1), ge(v[0], L)), c_and(ne(f, 1), lt(v[0], L)))), ("Some(x): x == bytes", c_and(eq(f, 1), ne(o, v[0])))],
-      T, out_kind="flag+scalar", bounds="all 2^256 byte strings", reduce_lemma=True)
+      T, out_kind="flag+scalar", bounds="all 2^256 byte strings", reduce_lemma="contract")
     H("Scalar ct_eq", "vp_sc_ct_eq", [("scalar", False), ("scalar", False)],
       lambda o, v, f: [("1 <=> equal bytes", c_or(c_and(eq(f, 1), ne(v[0], v[1])), c_and(ne(f, 1), eq(v[0], v[1]))))], T, out_kind="flag", bounds="all pairs of 32-byte strings")
     for bits, nm in ((8, "u8"), (16, "u16"), (32, "u32"), (64, "u64"), (128, "u128")):
